@@ -1,6 +1,7 @@
 import PybropsModel.J
 import PybropsModel.Model.Program
 import PybropsModel.Model.ProgramSym
+import PybropsModel.Model.ProgramOracle
 import PybropsModel.Generated.C20Schedule
 open Lean
 
@@ -18,21 +19,25 @@ open Program
 /-- data of a cell.  Conventions shared with the Python stubs (harness/props/c20.py):
     a `dict` is a cell with data `[-9]` whose references are its values in insertion order (the list
     under the key "h" first); a list of integers is a cell holding them; a list of objects is a cell
-    `[-8]` with its elements as references; a numpy integer array is a cell `-7 :: values` -/
+    `[-8]` with its elements as references; a numpy integer array is a cell `-7 :: values`; a tuple of
+    objects is a cell `[-6]` (immutable: never mutated in place); an instance of a plain Python class is a
+    cell `[-5]` whose references are its attribute values in insertion order (attribute "h" first) -/
 abbrev D := List Int
 abbrev V := View D
 
 def dictD : D := [-9]
+def objD : D := [-5]
 
-/-- how deep the recorded observations unfold the object graph below a container -/
+/-- how deep the recorded observations unfold the object graph below a container (default; a request may
+    ask for more — containers nested a dozen levels deep) -/
 def DEPTH : Nat := 5
 
 /-- one scripted call.  `late`: in-place mutations of objects the stubs were handed (or returned) in
     EARLIER calls (index into the list of everything seen so far, path of child indices below it);
     `muts`: in-place mutation of the handed containers (append a token to the list under "h", creating
     it if absent); `deep`: mutations below a handed container (argument index, path); then what is
-    returned: the `j`-th handed container or a new container with the given content -/
-inductive Sel | arg (j : Nat) | new (c : D)
+    returned: the `j`-th handed container, a new container `{"h": c}` or a new EMPTY container `{}` -/
+inductive Sel | arg (j : Nat) | new (c : D) | empty
 
 structure Action where
   kind : String                 -- "op:pselect", "log:mate", "init", …: which call consumes it
@@ -61,14 +66,15 @@ def appendTo (h : Heap (Cell D)) (a : Ref) (x : Int) : Heap (Cell D) :=
       | none => h
     | [] => (h ++ [({ data := [x], refs := [] } : Cell D)]).set a { c with refs := [h.length] }
 
-/-- in-place mutation of one object with token `x`, by kind: dict — append to its "h" list; list of
-    integers — append; array — overwrite the last element; list of objects — nothing -/
+/-- in-place mutation of one object with token `x`, by kind: dict / class instance — append to its "h"
+    list (created when absent, e.g. in an empty dict); list of integers — append; array — overwrite the
+    last element; list or tuple of objects — nothing -/
 def mutCell (h : Heap (Cell D)) (a : Ref) (x : Int) : Heap (Cell D) :=
   match h[a]? with
   | none => h
   | some c =>
-    if c.data == dictD then appendTo h a x
-    else if c.data.head? == some (-8) then h
+    if c.data == dictD || c.data == objD then appendTo h a x
+    else if c.data.head? == some (-8) || c.data.head? == some (-6) then h
     else if c.data.head? == some (-7) then
       (if c.data.length ≥ 2 then h.set a { c with data := c.data.dropLast ++ [x] } else h)
     else h.set a { c with data := c.data ++ [x] }
@@ -104,6 +110,10 @@ def applyDeep (h : Heap (Cell D)) (roots : List Ref) (ms : List (Nat × List Nat
 def newCells (h : Heap (Cell D)) (c : D) : Heap (Cell D) :=
   h ++ [({ data := dictD, refs := [h.length + 1] } : Cell D), { data := c, refs := [] }]
 
+/-- a new empty container `{}`: one dict cell without references -/
+def emptyCell (h : Heap (Cell D)) : Heap (Cell D) :=
+  h ++ [({ data := dictD, refs := [] } : Cell D)]
+
 /-- the `j`-th handed object, the first one if there are fewer (as the Python stubs do) -/
 def pickArg (args : List Ref) (j : Nat) : Option Ref :=
   match args[j]? with
@@ -118,6 +128,9 @@ def applyRets (h : Heap (Cell D)) (args : List Ref) : List Sel → Heap (Cell D)
     | none => let r := applyRets (newCells h []) args rest; (r.1, h.length :: r.2)   -- nothing was handed
   | .new c :: rest =>
     let r := applyRets (newCells h c) args rest
+    (r.1, h.length :: r.2)
+  | .empty :: rest =>
+    let r := applyRets (emptyCell h) args rest
     (r.1, h.length :: r.2)
 
 def defaultRets (k : OpK) : List Sel :=
@@ -176,6 +189,7 @@ def decSel (j : Json) : J.R Sel := do
     match ← J.str tag with
     | "arg" => Sel.arg <$> J.nat x
     | "new" => Sel.new <$> J.list J.int x
+    | "empty" => pure Sel.empty
     | s => J.fail s!"bad selector {s}"
   | _ => J.fail "bad selector"
 
@@ -256,6 +270,10 @@ inductive CallJ
   | reset (repIn : Option Int)
   | advance (ngen : Option Nat) (repIn : Option Int)
   | setStart (slot : Nat) (content : Option D)      -- `prog.start_X = {"h": content}` / `= None`
+  | setStartEmpty (slot : Nat)                      -- `prog.start_X = {}`
+  | noop                                            -- something that must not affect this programme object:
+                                                    -- the user replaces an operator by another instance
+                                                    -- of the same behaviour; ANOTHER programme object runs
   | setTmax (n : Nat)                               -- `prog.t_max = n`
   | setT (n : Nat)                                  -- `prog.t_cur = n`
 
@@ -265,7 +283,10 @@ def decCall (j : Json) : J.R CallJ := do
                         (← J.fieldOpt j "rep_in" J.int))
   | "reset" => pure (.reset (← J.fieldOpt j "rep_in" J.int))
   | "advance" => pure (.advance (← J.fieldOpt j "ngen" J.nat) (← J.fieldOpt j "rep_in" J.int))
-  | "set_start" => pure (.setStart (← J.field j "slot" J.nat) (← J.fieldOpt j "content" (J.list J.int)))
+  | "set_start" =>
+    if ← J.fieldD j "empty" J.bool false then pure (.setStartEmpty (← J.field j "slot" J.nat))
+    else pure (.setStart (← J.field j "slot" J.nat) (← J.fieldOpt j "content" (J.list J.int)))
+  | "noop" => pure .noop
   | "set_tmax" => pure (.setTmax (← J.field j "value" J.nat))
   | "set_t" => pure (.setT (← J.field j "value" J.nat))
   | m => J.fail s!"unknown call {m}"
@@ -274,26 +295,30 @@ def withRep (st : State OSt D) : Option Int → State OSt D
   | some r => { st with rep := r }
   | none => st
 
-def runCall (sc : Schedule) (tmax : Nat) (c : CallJ) (st : State OSt D) : State OSt D :=
+def runCall (sc : Schedule) (depth tmax : Nat) (c : CallJ) (st : State OSt D) : State OSt D :=
   match c with
-  | .evolve nrep ngen li r => evolve scripted ⟨nrep, ngen, tmax, li, dictD, DEPTH⟩ sc (withRep st r)
-  | .reset r => resetCall scripted ⟨0, none, tmax, true, dictD, DEPTH⟩ sc (withRep st r)
-  | .advance ngen r => advanceCall scripted ⟨0, ngen, tmax, true, dictD, DEPTH⟩ sc (withRep st r)
+  | .evolve nrep ngen li r => evolve scripted ⟨nrep, ngen, tmax, li, dictD, depth⟩ sc (withRep st r)
+  | .reset r => resetCall scripted ⟨0, none, tmax, true, dictD, depth⟩ sc (withRep st r)
+  | .advance ngen r => advanceCall scripted ⟨0, ngen, tmax, true, dictD, depth⟩ sc (withRep st r)
   | .setStart slot (some c) =>
     -- a new container allocated by the caller; it becomes part of the initial state (everything
     -- allocated so far now counts as existing at initialisation)
     { st with heap := st.heap ++ [({ data := dictD, refs := [st.heap.length + 1] } : Cell D), { data := c, refs := [] }],
               n0 := st.heap.length + 2, start := st.start.set slot (some st.heap.length) }
   | .setStart slot none => { st with start := st.start.set slot none }
+  | .setStartEmpty slot =>
+    { st with heap := st.heap ++ [({ data := dictD, refs := [] } : Cell D)],
+              n0 := st.heap.length + 1, start := st.start.set slot (some st.heap.length) }
+  | .noop => st
   | .setTmax _ => st
   | .setT n => { st with t := n }
 
 /-- run the successive API calls; one answer object per call (stops after a call that raises) -/
-def runAll (sc : Schedule) (tmax : Nat) : List CallJ → State OSt D → List Json
+def runAll (sc : Schedule) (depth tmax : Nat) : List CallJ → State OSt D → List Json
   | [], _ => []
   | c :: cs, st =>
     let st0 := { st with trace := [] }
-    let st1 := runCall sc tmax c st0
+    let st1 := runCall sc depth tmax c st0
     let tmax' := match c with
       | .setTmax n => n
       | _ => tmax
@@ -301,12 +326,12 @@ def runAll (sc : Schedule) (tmax : Nat) : List CallJ → State OSt D → List Js
     J.obj [("trace", Json.arr (encTrace none st1.trace).toArray), ("bad", J.ofBool st1.bad),
            ("start_before", J.ofList (J.ofOpt J.ofNat) st.start),
            ("start_after", J.ofList (J.ofOpt J.ofNat) st1.start),
-           ("startVals_after", J.ofList encVal (startVals DEPTH st1.heap st1.start)),
+           ("startVals_after", J.ofList encVal (startVals depth st1.heap st1.start)),
            ("work", J.ofList (J.ofOpt J.ofNat) work),
-           ("workVals", J.ofList encVal (startVals DEPTH st1.heap work)),
+           ("workVals", J.ofList encVal (startVals depth st1.heap work)),
            ("rep", J.ofInt st1.rep), ("t", J.ofNat st1.t), ("tmax", J.ofNat tmax'),
            ("script_left", J.ofNat st1.ost.script.length)]
-      :: (if st1.bad then [] else runAll sc tmax' cs st1)
+      :: (if st1.bad then [] else runAll sc depth tmax' cs st1)
 
 def decCell (j : Json) : J.R (Cell D) := do
   pure { data := ← J.field j "d" (J.list J.int), refs := ← J.field j "r" (J.list J.nat) }
@@ -321,11 +346,12 @@ def opRun : J.Op := fun j => do
   let script ← J.field j "script" (J.list decAction)
   let calls ← J.field j "calls" (J.list decCall)
   let canon ← J.fieldD j "canonical" J.bool false
+  let depth ← J.fieldD j "depth" J.nat DEPTH      -- how deep the observations unfold the object graphs
   let st : State OSt D :=
     { heap := heap, n0 := heap.length, regs := fun _ => none, start := start,
       t := 0, rep := rep0, ngen := none, ost := ⟨script, []⟩, trace := [], bad := false }
   let sc := if canon then Program.canonical else C20Schedule.evolve
-  pure <| J.obj [("calls", Json.arr (runAll sc tmax calls st).toArray)]
+  pure <| J.obj [("calls", Json.arr (runAll sc depth tmax calls st).toArray)]
 
 /-! diagnostics for a rejected trace (not part of the Spec) -/
 
@@ -374,21 +400,22 @@ def opSpec : J.Op := fun j => do
   let v0 ← J.field j "V0given" (J.list decVal)
   let trace ← decTrace v0 (← J.field j "trace" (J.list pure))
   let after ← J.field j "startVals_after" (J.list decVal)
+  let rb ← J.fieldD j "rep_before" J.int 0
+  let ra ← J.fieldD j "rep_after" J.int (rb + Int.ofNat nrep)
+  let tb ← J.fieldD j "t_before" J.nat 0
+  let ta ← J.fieldD j "t_after" J.nat (clockAfterEvolve nrep ngen tb)
+  -- the complete oracle (Model/ProgramOracle.lean; sound for the model: C20.evolve_meets_call_spec)
+  let ok := specEvolveCall sameOrEqual nrep ngen loginit v0 trace after rb ra tb ta
+  -- diagnostics: which clause fails
   let spec := specTrace sameOrEqual nrep ngen loginit v0 trace
   let strict := specTrace sameRef nrep ngen loginit v0 trace
-  let v0' := match trace with
-    | e :: _ => if e.kind == EvKind.init then e.retVals else v0
-    | [] => v0
-  let afterOk := after == v0'
-  let rb ← J.fieldD j "rep_before" (J.opt J.int) none
-  let ra ← J.fieldD j "rep_after" (J.opt J.int) none
-  let total := match rb, ra with
-    | some b, some a => a == b + Int.ofNat nrep
-    | _, _ => true
-  let reps := repsOK loginit ngen nrep ((specBody loginit trace).map (fun e => e.rep)) && total
+  let reps := repsOK loginit ngen nrep ((specBody loginit trace).map (fun e => e.rep)) && ra == rb + Int.ofNat nrep
+  let afterOk := after == initialState v0 trace
+  let ini := initOK v0 trace
+  let clock := ta == clockAfterEvolve nrep ngen tb
   let why := if spec then "" else " reason: " ++ explain nrep ngen loginit v0 trace
-  pure <| J.obj [("ok", J.ofBool (spec && reps && afterOk)),
-                 ("detail", J.ofStr s!"specTrace={spec} replicate_counter={reps} identity_wiring={strict} start_after_unchanged={afterOk}{why}")]
+  pure <| J.obj [("ok", J.ofBool ok),
+                 ("detail", J.ofStr s!"specTrace={spec} replicate_counter={reps} identity_wiring={strict} start_after_unchanged={afterOk} initialised_only_if_needed={ini} clock_after={clock}{why}")]
 
 def decItems (j : Json) : J.R (List (Item V)) := do
   let ids ← J.field j "cur" (J.list J.nat)
@@ -403,11 +430,12 @@ def opSpecAdvance : J.Op := fun j => do
   let cur ← decItems j
   let trace ← decTrace v0 (← J.field j "trace" (J.list pure))
   let after ← J.field j "startVals_after" (J.list decVal)
+  let ta ← J.fieldD j "t_after" J.nat (t0 + ngen)
+  let ok := specAdvanceCall sameOrEqual ngen t0 v0 cur trace after ta
   let spec := specAdvance sameOrEqual ngen t0 v0 cur trace
   let strict := specAdvance sameRef ngen t0 v0 cur trace
-  let afterOk := after == v0
-  pure <| J.obj [("ok", J.ofBool (spec && afterOk)),
-                 ("detail", J.ofStr s!"specAdvance={spec} identity_wiring={strict} start_after_unchanged={afterOk}")]
+  pure <| J.obj [("ok", J.ofBool ok),
+                 ("detail", J.ofStr s!"specAdvance={spec} identity_wiring={strict} start_after_unchanged={after == v0} clock_after={ta == t0 + ngen}")]
 
 /-- Spec of a direct `reset()` call: working containers equal the initial state, clock 0,
     start containers untouched -/
@@ -416,7 +444,7 @@ def opSpecReset : J.Op := fun j => do
   let work ← J.field j "workVals" (J.list decVal)
   let t ← J.field j "t" J.nat
   let after ← J.field j "startVals_after" (J.list decVal)
-  let ok := work == v0 && t == 0 && after == v0 && v0.length == 5 && v0.all Option.isSome
+  let ok := specResetCall v0 work t after
   pure <| J.obj [("ok", J.ofBool ok),
                  ("detail", J.ofStr s!"working_equals_initial={work == v0} clock_zero={t == 0} start_after_unchanged={after == v0}")]
 
